@@ -3,6 +3,15 @@ import ctypes, os, sys
 
 _lib = None
 UINT_MAX = 0xFFFFFFFF
+
+
+class CompiledBehaviour(RuntimeError):
+    """what a real build would do wrong (undefined behaviour, swallowed exception): a fact about the code under test"""
+
+
+class HarnessLimit(Exception):
+    """the Python emulation of the Cython glue met something it cannot express: not a fact about the code under test"""
+
 NULL = None
 
 
@@ -10,8 +19,20 @@ class CellItem(ctypes.Structure):
     pass
 
 
+class _Deref(object):
+    """pointer idioms of Cython code: p[0] and deref(p) denote the object itself in this runtime"""
+
+    def __getitem__(self, index):
+        if index != 0:
+            raise IndexError('only p[0] (dereference) is meaningful on this object')
+        return self
+
+
 class config(ctypes.Structure):
-    pass
+    def __getitem__(self, index):
+        if index != 0:
+            raise IndexError('only p[0] (dereference) is meaningful on this object')
+        return self
 
 
 _CELL_FIELDS = [('fin', ctypes.c_bool), ('cat', ctypes.c_uint), ('left', ctypes.POINTER(CellItem)), ('right', ctypes.POINTER(CellItem)),
@@ -89,7 +110,7 @@ def load(path):
     hook_active = bool(_lib.verif_install_hook()) if hook_present else False
 
 
-class combinator_result(object):
+class combinator_result(_Deref):
     __slots__ = ('_cat_id', '_rule_id', '_head_is_left', 'op_string', 'op_symbol')
 
     def __init__(self):
@@ -100,14 +121,14 @@ class combinator_result(object):
     head_is_left = property(lambda s: s._head_is_left, lambda s, v: setattr(s, '_head_is_left', bool(v)))
 
 
-class pair(object):
+class pair(_Deref):
     def __init__(self):
         self._a = 0; self._b = 0
     first = property(lambda s: s._a, lambda s, v: setattr(s, '_a', int(v) & UINT_MAX))
     second = property(lambda s: s._b, lambda s, v: setattr(s, '_b', int(v) & UINT_MAX))
 
 
-class unordered_set(object):
+class unordered_set(_Deref):
     def __init__(self):
         self.items = set()
 
@@ -133,7 +154,7 @@ class _cache_entry(object):
         cat_id = ctypes.c_uint(); rule_id = ctypes.c_uint(); hil = ctypes.c_int()
         s1 = ctypes.create_string_buffer(256); s2 = ctypes.create_string_buffer(256)
         if _lib.verif_cache_get(self.cache, a, b, int(idx) & UINT_MAX, cat_id, rule_id, hil, s1, s2, 256) != 0:
-            raise RuntimeError(f'undefined behaviour in the compiled module: rule cache access [{a},{b}][{idx}] out of range')
+            raise CompiledBehaviour(f'undefined behaviour in the compiled module: rule cache access [{a},{b}][{idx}] out of range')
         r = combinator_result()
         r.cat_id = cat_id.value; r.rule_id = rule_id.value; r.head_is_left = hil.value
         r.op_string = s1.value; r.op_symbol = s2.value
@@ -211,7 +232,7 @@ def parse_sentence(c_tag, c_dep, length, roots, binary_callback, unary_callback,
         try:
             return int(finalizer(item_ptr(item), token_id, cache_type(cache_p), finalizer_args)) & UINT_MAX
         except BaseException as e:     # `noexcept`: would be printed and swallowed
-            pending.append(RuntimeError(f'exception escaped a noexcept function: {e!r}'))
+            pending.append(e if isinstance(e, HarnessLimit) else CompiledBehaviour(f'exception escaped a noexcept function: {e!r}'))
             return 0
 
     arr = (ctypes.c_uint * max(1, len(roots.items)))(*sorted(roots.items))
